@@ -922,6 +922,8 @@ impl Store {
                 let own_node = node.get_or_create_child(key.to_owned()).0;
                 Store::nmerge(own_node, other_node, Some(&key), insertions, &path);
             }
+            // imported nodes without value and children must not leave empty nodes behind
+            node.trim();
         }
     }
 
